@@ -109,73 +109,64 @@ theorem bad_any_400 {α β γ : Type} (p : Except ExtractErr α) (q : Except Ext
 example : handle (extract3 (α := Nat) (β := Nat) (γ := Nat) (.ok 1) (.error (.query .parse)) (.ok 2)) =
     .refused 400 := by decide
 
-/-! ### Malformed JSON, with the codec as the code uses it (finding K10a)
+/-! ### Malformed JSON, with the codec as the code uses it
 
-Full-strength statement, **false on the unchanged tree**:
+`http_request_load_body` decodes the first JSON value into the type and then
+calls `Deserializer::end()` (`JsonBody.decode`).  The specification is the
+RFC 8259 reading `decodeStrict`: the body is exactly one JSON value (optional
+whitespace around it) of the type.  Before commit 15a2707 `end()` was not
+called (finding K10a, repaired): `decodeAsIs` and the witness below. -/
 
-    ∀ fs body e, decodeStrict fs body = .error e → ∃ e', decodeAsIs fs body = .error e'
+/-- The code accepts exactly what the specification accepts, with the same value. -/
+theorem decode_ok_iff_strict (fs : List (Bytes × FTy)) (body : Bytes) (v : Val) :
+    decode fs body = .ok v ↔ decodeStrict fs body = .ok v := by
+  unfold decode decodeStrict
+  cases hp : parseFirst body with
+  | none => simp
+  | some p =>
+    obtain ⟨jv, rest⟩ := p
+    simp only
+    cases hd : deStructJ fs jv with
+    | error e1 => by_cases hr : skipWs rest ≠ [] <;> simp [hr, hd]
+    | ok x => by_cases hr : skipWs rest ≠ [] <;> simp [hr, hd]
 
-("a body that is not one JSON value of the type is refused").  The code calls
-`serde_path_to_error::deserialize` on a `serde_json::Deserializer` and never
-`Deserializer::end()`, so what follows the first value is not examined. -/
+/-- **Malformed JSON is refused**: whatever RFC 8259 + the type refuse —
+syntax errors, truncation, a second value or any other bytes after the first,
+wrong member types, missing or duplicate members — the code's decoder refuses. -/
+theorem bad_json_refused (fs : List (Bytes × FTy)) (body : Bytes) (e : BodyErr)
+    (hstrict : decodeStrict fs body = .error e) : ∃ e', decode fs body = .error e' := by
+  cases hd : decode fs body with
+  | error e' => exact ⟨e', rfl⟩
+  | ok v =>
+    rw [(decode_ok_iff_strict fs body v).1 hd] at hstrict
+    cases hstrict
+
+/-- … and so the request is answered 400 without a handler call. -/
+theorem bad_json_400 (fs : List (Bytes × FTy)) (form : Bytes → Except DeErr Val)
+    (cap : Nat) (hdr : Option Bytes) (body : Bytes) (e : BodyErr)
+    (hct : requestCT hdr = .ok .json) (hcap : body.length ≤ cap)
+    (hstrict : decodeStrict fs body = .error e) :
+    handle (extractBodyE (decode fs) form .json cap hdr body) = .refused 400 ∧
+      (handle (extractBodyE (decode fs) form .json cap hdr body)).handlerCalls = 0 := by
+  obtain ⟨e', he⟩ := bad_json_refused fs body e hstrict
+  have : ¬ body.length > cap := by omega
+  exact bad_body_400 (decode fs) form .json cap hdr body e' (by simp [loadBody, this, hct, he])
 
 /-- `{"a":1}x` for `struct { a: u8 }`. -/
 def kBody : Bytes := [123, 34, 97, 34, 58, 49, 125, 120]
 def kFs : List (Bytes × FTy) := [([97], .scalar (.uint 8))]
 
-/-- **Finding K10a (negation witness).**  The body `{"a":1}x` is not JSON, yet
-the decoder as the code stands accepts it (and the handler runs with `a = 1`). -/
-theorem json_trailing_bytes_accepted :
+/-- **Defect K10a (regression witness).**  The body `{"a":1}x` is not JSON; the
+code before the repair accepted it (the handler ran with `a = 1`), the repaired
+code refuses it, as the specification does. -/
+theorem decodeAsIs_fails :
     decodeAsIs kFs kBody = .ok [([97], .scalar (.nat 1))] ∧ decodeStrict kFs kBody = .error .json ∧
-      trailingGarbage kFs kBody = true := by
+      decode kFs kBody = .error .json := by
   decide
 
-theorem C10_json_full_fails :
-    ¬ ∀ (fs : List (Bytes × FTy)) (body : Bytes) (e : BodyErr),
-      decodeStrict fs body = .error e → ∃ e', decodeAsIs fs body = .error e' := by
-  intro h
-  obtain ⟨e', he⟩ := h kFs kBody .json json_trailing_bytes_accepted.2.1
-  rw [json_trailing_bytes_accepted.1] at he
-  cases he
-
-/-- Outside the excluded region (`trailingGarbage`: a complete well-typed value
-followed by non-whitespace), whatever RFC 8259 + the type refuse, the code's
-decoder refuses too. -/
-theorem bad_json_refused_partial (fs : List (Bytes × FTy)) (body : Bytes) (e : BodyErr)
-    (hstrict : decodeStrict fs body = .error e) (hK : trailingGarbage fs body = false) :
-    ∃ e', decodeAsIs fs body = .error e' := by
-  unfold decodeStrict at hstrict
-  unfold trailingGarbage at hK
-  unfold decodeAsIs
-  cases hp : parseFirst body with
-  | none => exact ⟨_, rfl⟩
-  | some p =>
-    obtain ⟨v, rest⟩ := p
-    simp only [hp] at hstrict hK
-    cases hd : deStructJ fs v with
-    | error e1 => exact ⟨.decode e1, by simp [hd]⟩
-    | ok x =>
-      simp only [hd] at hstrict hK
-      by_cases hr : skipWs rest ≠ []
-      · simp [hr] at hK
-      · simp [hr] at hstrict
-
-/-- … and so the request is answered 400 without a handler call. -/
-theorem bad_json_400_partial (fs : List (Bytes × FTy)) (form : Bytes → Except DeErr Val)
-    (cap : Nat) (hdr : Option Bytes) (body : Bytes) (e : BodyErr)
-    (hct : requestCT hdr = .ok .json) (hcap : body.length ≤ cap)
-    (hstrict : decodeStrict fs body = .error e) (hK : trailingGarbage fs body = false) :
-    handle (extractBodyE (decodeAsIs fs) form .json cap hdr body) = .refused 400 ∧
-      (handle (extractBodyE (decodeAsIs fs) form .json cap hdr body)).handlerCalls = 0 := by
-  obtain ⟨e', he⟩ := bad_json_refused_partial fs body e hstrict hK
-  have : ¬ body.length > cap := by omega
-  exact bad_body_400 (decodeAsIs fs) form .json cap hdr body e' (by simp [loadBody, this, hct, he])
-
-/-- Non-vacuity: a truncated body is refused by both readings and is not in the
-excluded region (`{"a":1`). -/
-example : decodeStrict kFs [123, 34, 97, 34, 58, 49] = .error .json ∧
-    trailingGarbage kFs [123, 34, 97, 34, 58, 49] = false := by decide
-
+/-- Non-vacuity: a truncated body (`{"a":1`), trailing whitespace is fine. -/
+example : decodeStrict kFs [123, 34, 97, 34, 58, 49] = .error .json := by decide
+example : decode kFs [123, 34, 97, 34, 58, 49, 125, 32, 10] = .ok [([97], .scalar (.nat 1))] := by decide
 
 /-! ### Content types -/
 
